@@ -137,6 +137,22 @@ func genC06(r *PRNG, tier string) *Scenario {
 	scn.Links = []Link{l}
 	scn.Net = NetCfg{DefCap: genCap(r)}
 	scn.Sched.IdleHorizon = 5000
+	if scn.Note != "within" && r.Chance(1, 4) {
+		// the write side is broken when the limit is crossed (the 1009 cannot be sent):
+		// the read must still fail with ErrReadLimit
+		scn.Class = "limit-write-side-broken"
+		f := OpFault{Side: "w", AfterHead: true, K: r.Range(0, 1), Kind: r.Pick([]int{fErr, fTimeout, fShort}), N: 1}
+		if realIsServer {
+			scn.Net.Conns = []ConnCfg{{FaultsB: []OpFault{f}}}
+		} else {
+			f.K++
+			scn.Net.Conns = []ConnCfg{{FaultsA: []OpFault{f}}}
+		}
+		// no pings before the oversized message: the fault must land on the 1009
+		for i := range scn.Links[0].Script {
+			scn.Links[0].Script[i].Ctls = nil
+		}
+	}
 	return scn
 }
 
@@ -148,7 +164,9 @@ func oracleC06(run *Run) {
 	l := &run.Scn.Links[0]
 	e := realOfLink(run, 0)
 	if e == nil {
-		run.fail("HARNESS", "no-connection", "hs", "handshake failed")
+		if run.Scn.Class != "limit-write-side-broken" {
+			run.fail("HARNESS", "no-connection", "hs", "handshake failed")
+		}
 		return
 	}
 	L := int(e.Cfg.ReadLimit)
@@ -241,6 +259,9 @@ func oracleC06(run *Run) {
 					lenient = true
 				}
 			}
+		}
+		if run.Scn.Class == "limit-write-side-broken" {
+			lenient = true // the close could not be written
 		}
 		if !found && !lenient {
 			run.fail("C06", "no-1009", kind, "%s: no close frame 1009 was sent for an oversized message", who)
